@@ -23,7 +23,7 @@ static const char *hk_name[] = { "same", "perturb", "unrelated", "rowscale" };
 
 static int hist_pick_kind(rng_t *r) {
     double x = rng_unit(r);
-    return x < 0.12 ? HK_SAME : x < 0.37 ? HK_PERTURB : x < 0.67 ? HK_UNRELATED : HK_ROWSCALE;
+    return x < 0.08 ? HK_SAME : x < 0.30 ? HK_PERTURB : x < 0.60 ? HK_UNRELATED : HK_ROWSCALE;
 }
 
 static void hist_free(hist_t *h) {
@@ -32,14 +32,29 @@ static void hist_free(hist_t *h) {
 }
 
 /* needs[k] = 1 when step k factors (needs its own values) */
-static void hist_gen_generic(rng_t *r, int n, int nsteps, const int *needs, int cplx, hist_t *h) {
+/* grow = 1: "arrow" pattern with a dense first row and column whose row 0 is tiny until a rowscale step
+ * makes it dominant: the remembered (sparse-row) pivots are then abandoned for the dense row and the
+ * refactorization fills in completely, so the re-adopted L/U storage has to grow during reuse. */
+static void hist_gen_generic(rng_t *r, int n, int nsteps, const int *needs, int cplx, int grow, int emax, hist_t *h) {
     gmat_t g; memset(&g, 0, sizeof g);
-    gmat_gen(r, n, n, PAT_ANY, VAL_GENERIC, 1, cplx, &g);
+    if (!grow) gmat_gen(r, n, n, PAT_ANY, VAL_GENERIC, 1, cplx, &g);
+    else {
+        char *mk = calloc((size_t)n * n + 1, 1); long nz = 0;
+        for (int i = 0; i < n; i++) { mk[i + i * n] = 1; mk[0 + i * n] = 1; mk[i + 0 * n] = 1; }
+        for (int j = 0; j < n; j++) for (int i = 0; i < n; i++) if (rng_chance(r, 0.06)) mk[i + j * n] = 1;
+        for (size_t q = 0; q < (size_t)n * n; q++) nz += mk[q];
+        g.m = g.n = n; g.nnz = nz; g.pat = "arrow0"; g.val = "generic";
+        g.colptr = HMALLOC(sizeof(int_t) * (n + 1)); g.rowind = HMALLOC(sizeof(int_t) * (nz + 1)); g.re = HMALLOC(sizeof(double) * (nz + 1)); g.im = HMALLOC(sizeof(double) * (nz + 1));
+        long q = 0; for (int j = 0; j < n; j++) { g.colptr[j] = q; for (int i = 0; i < n; i++) if (mk[i + j * n]) { g.rowind[q] = i; g.re[q] = ldexp(gen_value(r, VAL_GENERIC), i == 0 ? -12 : 0); g.im[q] = cplx ? ldexp(gen_value(r, VAL_GENERIC), i == 0 ? -12 : 0) : 0.0; q++; } }
+        g.colptr[n] = q; free(mk);
+    }
     h->n = n; h->nsteps = nsteps; h->dyadic = 0; h->nnz = g.nnz;
     h->colptr = malloc(sizeof(int_t) * (n + 1)); h->rowind = malloc(sizeof(int_t) * (g.nnz + 1));
     memcpy(h->colptr, g.colptr, sizeof(int_t) * (n + 1)); memcpy(h->rowind, g.rowind, sizeof(int_t) * g.nnz);
     h->re = calloc(nsteps, sizeof(double *)); h->im = calloc(nsteps, sizeof(double *)); h->kind = calloc(nsteps, sizeof(int));
     int boost = rng_chance(r, 0.3);   /* a heavier diagonal now and then (well conditioned) */
+    int *cum = calloc(n + 1, sizeof(int));   /* cumulative row exponents, kept inside +-emax (no overflow / underflow of multipliers) */
+    if (grow) cum[0] = -12;
     for (int k = 0; k < nsteps; k++) {
         if (!needs[k]) { h->kind[k] = -1; h->re[k] = h->re[k - 1]; h->im[k] = h->im[k - 1]; continue; }
         h->re[k] = malloc(sizeof(double) * (g.nnz + 1)); h->im[k] = malloc(sizeof(double) * (g.nnz + 1));
@@ -50,21 +65,24 @@ static void hist_gen_generic(rng_t *r, int n, int nsteps, const int *needs, int 
         else if (kind == HK_PERTURB) {
             for (long q = 0; q < g.nnz; q++) { h->re[k][q] = h->re[k - 1][q] * (1.0 + 1e-3 * (2 * rng_unit(r) - 1)); h->im[k][q] = h->im[k - 1][q] * (1.0 + 1e-3 * (2 * rng_unit(r) - 1)); }
         } else if (kind == HK_UNRELATED) {
-            for (long q = 0; q < g.nnz; q++) { h->re[k][q] = gen_value(r, VAL_GENERIC); h->im[k][q] = cplx ? gen_value(r, VAL_GENERIC) : 0.0; }
+            for (long q = 0; q < g.nnz; q++) { int sh = (grow && h->rowind[q] == 0) ? -12 : 0; h->re[k][q] = ldexp(gen_value(r, VAL_GENERIC), sh); h->im[k][q] = cplx ? ldexp(gen_value(r, VAL_GENERIC), sh) : 0.0; }
+            for (int i = 0; i < n; i++) cum[i] = 0; if (grow) cum[0] = -12;
         } else {
             int *e = calloc(n + 1, sizeof(int)); int any = 0;
             for (int i = 0; i < n; i++) if (rng_chance(r, 0.4)) { e[i] = rng_chance(r, 0.5) ? 20 : -20; any = 1; }
             if (!any) e[rng_int(r, 0, n - 1)] = rng_chance(r, 0.5) ? 20 : -20;
+            if (grow && rng_chance(r, 0.8)) e[0] = 32;
+            for (int i = 0; i < n; i++) { int t = cum[i] + e[i]; if (t > emax) t = emax; if (t < -emax) t = -emax; e[i] = t - cum[i]; cum[i] = t; }
             for (long q = 0; q < g.nnz; q++) { h->re[k][q] = ldexp(h->re[k - 1][q], e[h->rowind[q]]); h->im[k][q] = ldexp(h->im[k - 1][q], e[h->rowind[q]]); }
             free(e);
         }
         if (boost && (k == 0 || kind == HK_UNRELATED))
             for (int j = 0; j < n; j++) for (int_t q = h->colptr[j]; q < h->colptr[j + 1]; q++) if (h->rowind[q] == j) h->re[k][q] += (h->re[k][q] < 0 ? -1.0 : 1.0) * n;
     }
-    gmat_free(&g);
+    gmat_free(&g); free(cum);
 }
 
-static void hist_gen_dyadic(rng_t *r, int n, int nsteps, const int *needs, int cplx, int natural_q, hist_t *h) {
+static void hist_gen_dyadic(rng_t *r, int n, int nsteps, const int *needs, int cplx, int natural_q, int emax, hist_t *h) {
     size_t nn = (size_t)n * n;
     char *Lp = calloc(nn + 1, 1), *Up = calloc(nn + 1, 1);           /* patterns of L0 (strict lower) and U0 (strict upper) */
     double *L0 = calloc(nn + 1, sizeof(double)), *U0 = calloc(nn + 1, sizeof(double));
@@ -96,7 +114,7 @@ static void hist_gen_dyadic(rng_t *r, int n, int nsteps, const int *needs, int c
             int any = 0;
             for (int i = 0; i < n; i++) if (rng_chance(r, 0.4)) { d[i] += rng_chance(r, 0.5) ? 20 : -20; any = 1; }
             if (!any) d[rng_int(r, 0, n - 1)] += rng_chance(r, 0.5) ? 20 : -20;
-            for (int i = 0; i < n; i++) { if (d[i] > 40) d[i] = 40; if (d[i] < -40) d[i] = -40; }
+            for (int i = 0; i < n; i++) { if (d[i] > emax) d[i] = emax; if (d[i] < -emax) d[i] = -emax; }
         }
         double *M = calloc(nn + 1, sizeof(double)), *Mi = calloc(nn + 1, sizeof(double));
         int *inv = malloc(sizeof(int) * (n + 1)); for (int i = 0; i < n; i++) inv[pr[i]] = i;
